@@ -188,10 +188,17 @@ func TestC10ValidatorAPI(t *testing.T) {
 			detail = l.Path
 			mustReject = true
 		}
-		w = newWiring()
-		sClean := builders[bi](t, cl, v, me, seed) // wiring answers come from an untouched twin
-		sClean.install(w)
-		comp, rec = newComponent(cl, me, w)
+		// the altered submission reaches a fresh component or (half of the cases) the very component that has
+		// just admitted the valid one: whatever a component remembers about what it verified must not help
+		sameComponent := rapid.Bool().Draw(rt, "sameComponent")
+		if sameComponent {
+			*rec = nil
+		} else {
+			w = newWiring()
+			sClean := builders[bi](t, cl, v, me, seed) // wiring answers come from an untouched twin
+			sClean.install(w)
+			comp, rec = newComponent(cl, me, w)
+		}
 		var err error
 		func() {
 			defer func() {
@@ -212,7 +219,7 @@ func TestC10ValidatorAPI(t *testing.T) {
 				rt.Fatalf("ADMITTED: %s returned %v but subscribers were called %d times (%s %s)", s.endpoint, err, len(*rec), alt, detail)
 			}
 		}
-		vstat.Case(fmt.Sprintf("%s/%s/%s/%d", s.endpoint, alt, detail, seed), mustReject, "vc:"+s.endpoint, "alt:"+alt, cls("no_assertion(unsigned metadata)", !mustReject))
+		vstat.Case(fmt.Sprintf("%s/%s/%s/%d", s.endpoint, alt, detail, seed), mustReject, "vc:"+s.endpoint, "alt:"+alt, cls("no_assertion(unsigned metadata)", !mustReject), cls("altered_after_valid_on_same_component", sameComponent))
 		if mustReject && vstat.WantSample(s.endpoint) {
 			vstat.Sample(s.endpoint, map[string]any{"endpoint": s.endpoint, "alteration": alt, "detail": detail, "n": n, "share": me, "error": fmt.Sprint(err)})
 		}
@@ -259,13 +266,27 @@ func TestC10PeerPath(t *testing.T) {
 		verifier, err := parsigex.NewEth2Verifier(cl.bn, cl.pubshares())
 		must(err)
 
+		// the altered message reaches a fresh exchange component or (half of the cases) the very one that has
+		// just admitted the valid message
+		sameComponent := rapid.Bool().Draw(rt, "sameComponent")
+		var sharedNet *memnet.Net
+		var sharedCalls *int
 		run := func(duty core.Duty, set core.ParSignedDataSet) (calls int, handled bool) {
-			net := memnet.New()
-			ex := parsigex.NewParSigEx(net.Host(peers[meIdx]), p2p.Send, meIdx, peers, verifier, gater)
-			ex.Subscribe(func(_ context.Context, _ core.Duty, got core.ParSignedDataSet) error {
-				calls++
-				return nil
-			})
+			net := sharedNet
+			counter := sharedCalls
+			if net == nil {
+				net = memnet.New()
+				counter = new(int)
+				ex := parsigex.NewParSigEx(net.Host(peers[meIdx]), p2p.Send, meIdx, peers, verifier, gater)
+				ex.Subscribe(func(_ context.Context, _ core.Duty, got core.ParSignedDataSet) error {
+					*counter++
+					return nil
+				})
+				if sameComponent {
+					sharedNet, sharedCalls = net, counter
+				}
+			}
+			before := *counter
 			pbSet, err := core.ParSignedDataSetToProto(set)
 			if err != nil {
 				return 0, false
@@ -274,7 +295,7 @@ func TestC10PeerPath(t *testing.T) {
 			net.Take(0)
 			net.Deliver(f)
 			f.Wait()
-			return calls, true
+			return *counter - before, true
 		}
 
 		boundary := rapid.IntRange(0, 3).Draw(rt, "forkBoundary") == 0 && len(cl.bn.Forks) > 1
